@@ -524,6 +524,28 @@ impl<F: Write + Seek> Directory<F> {
         self.write_dir_entry(stream_id)
     }
 
+    /// Like `with_dir_entry_mut()`, but if the updated directory entry cannot
+    /// be written to the underlying file, the in-memory entry is restored, so
+    /// that a change reported as failed is neither visible afterwards nor
+    /// written out by a later update of the same entry.  Only for changes to
+    /// an entry's metadata: an entry whose chain has already been changed must
+    /// keep pointing to the new chain.
+    pub fn try_with_dir_entry_mut<W>(
+        &mut self,
+        stream_id: u32,
+        func: W,
+    ) -> io::Result<()>
+    where
+        W: FnOnce(&mut DirEntry),
+    {
+        let saved = self.dir_entries[stream_id as usize].clone();
+        let result = self.with_dir_entry_mut(stream_id, func);
+        if result.is_err() {
+            self.dir_entries[stream_id as usize] = saved;
+        }
+        result
+    }
+
     /// Calls the given function with a mutable reference to the root directory
     /// entry, then writes the updated directory entry to the underlying file
     /// once the function returns.
